@@ -59,11 +59,19 @@ func (w *scriptWriter) Write(b []byte) (int, error) {
 	return k, nil
 }
 
-type scriptMSWriter struct{ scriptWriter }
+type scriptMSWriter struct {
+	scriptWriter
+	via []string // how each attempt reached the writer: the stream of WriteStream, or "w" for a plain Write
+}
 
 func (w *scriptMSWriter) WriteStream(b []byte, s uint) (int, error) {
 	w.streams = append(w.streams, s)
-	return w.Write(b)
+	w.via = append(w.via, strconv.Itoa(int(s)))
+	return w.scriptWriter.Write(b)
+}
+func (w *scriptMSWriter) Write(b []byte) (int, error) {
+	w.via = append(w.via, "w")
+	return w.scriptWriter.Write(b)
 }
 func (w *scriptMSWriter) CurrentWriterStream() uint   { return 0 }
 func (w *scriptMSWriter) ResetWriterStream()          {}
@@ -97,11 +105,19 @@ func execRetry(toks []string) string {
 	var n int64
 	var werr error
 	var sw *scriptWriter
+	via := ""
 	res := guard(func() {
 		if ms == "1" {
-			w := &scriptMSWriter{scriptWriter{outs: outs}}
+			w := &scriptMSWriter{scriptWriter: scriptWriter{outs: outs}}
 			sw = &w.scriptWriter
-			n, werr = m.WriteToWithRetry(w, uint(r))
+			if sS, ok := kvGet(toks, "s"); ok { // the stream the message has to leave on
+				st, _ := strconv.Atoi(sS)
+				k, e := m.WriteToStreamWithRetry(w, uint(st), uint(r))
+				n, werr = int64(k), e
+				via = " via=" + strings.Join(w.via, ".")
+			} else {
+				n, werr = m.WriteToWithRetry(w, uint(r))
+			}
 		} else {
 			w := &scriptWriter{outs: outs}
 			sw = w
@@ -122,7 +138,7 @@ func execRetry(toks []string) string {
 			e = "temp"
 		}
 	}
-	return fmt.Sprintf("off=%s acc=%s n=%d err=%s", strings.Join(offs, ","), hexOrDash(sw.acc), n, e)
+	return fmt.Sprintf("off=%s acc=%s n=%d err=%s%s", strings.Join(offs, ","), hexOrDash(sw.acc), n, e, via)
 }
 
 func genRetry(r *RNG, n int, op string, emit func(string)) {
@@ -199,7 +215,11 @@ func genRetry(r *RNG, n int, op string, emit func(string)) {
 		if o == "" {
 			o = "-"
 		}
-		emit(fmt.Sprintf("retry write r=%d ms=%d outs=%s b=%s", ret, r.Intn(2), o, hex.EncodeToString(b)))
+		line := fmt.Sprintf("retry write r=%d ms=%d outs=%s b=%s", ret, r.Intn(2), o, hex.EncodeToString(b))
+		if strings.Contains(line, " ms=1 ") && r.Chance(60) {
+			line += fmt.Sprintf(" s=%d", []int{0, 1, 2, 5, 15, 65535}[r.Intn(6)])
+		}
+		emit(line)
 	}
 }
 
@@ -252,9 +272,32 @@ func execCwrite(toks []string) string {
 			return len(b), nil
 		}
 	}
-	conn, err := diam.NewConn(mc, "mem", diam.HandlerFunc(func(diam.Conn, *diam.Message) {}), dict.Default)
+	// hc=1: every second writer does not use the Conn that NewConn returned but the one a handler
+	// of this connection was given (it keeps it and answers later, from its own goroutine):
+	// all handles of one connection must serialise their writes with each other
+	handles := make(chan diam.Conn, 64)
+	conn, err := diam.NewConn(mc, "mem", diam.HandlerFunc(func(c diam.Conn, m *diam.Message) {
+		select {
+		case handles <- c:
+		default:
+		}
+	}), dict.Default)
 	if err != nil {
 		return "err"
+	}
+	writerConn := make([]diam.Conn, G)
+	for g := range writerConn {
+		writerConn[g] = conn
+	}
+	if hc, _ := kvGet(toks, "hc"); hc == "1" {
+		for g := 0; g < G; g += 2 {
+			mc.deliver(simpleMsg(280, 0x80, 0, uint32(9000+g), uint32(9000+g), diam.NewAVP(264, 0x40, 0, datatype.DiameterIdentity("a")), diam.NewAVP(296, 0x40, 0, datatype.DiameterIdentity("b"))))
+			select {
+			case c := <-handles:
+				writerConn[g] = c
+			case <-time.After(time.Second):
+			}
+		}
 	}
 	var wg sync.WaitGroup
 	start := make(chan struct{})
@@ -262,6 +305,7 @@ func execCwrite(toks []string) string {
 		wg.Add(1)
 		go func(g int) {
 			defer wg.Done()
+			conn := writerConn[g]
 			<-start
 			for i := 0; i < M; i++ {
 				size := []int{24, 600, 1010, 1500, 4090, 5000}[(g+i)%6]
@@ -340,7 +384,7 @@ func execCwrite(toks []string) string {
 
 func genCwrite(r *RNG, n int, op string, emit func(string)) {
 	for i := 0; i < n; i++ {
-		emit(fmt.Sprintf("conn cwrite g=%d m=%d big=%d stall=%d seq=%d", 2+r.Intn(7), 1+r.Intn(6), r.Intn(2), []int{1, 1, 0}[r.Intn(3)], i))
+		emit(fmt.Sprintf("conn cwrite g=%d m=%d big=%d stall=%d seq=%d hc=%d", 2+r.Intn(7), 1+r.Intn(6), r.Intn(2), []int{1, 1, 0}[r.Intn(3)], i, r.Intn(2)))
 	}
 }
 
